@@ -9,6 +9,7 @@
 -/
 import Proofs.Network
 import Proofs.NetworkNFT
+import Proofs.NetworkMulti
 import Proofs.Ledger
 import Proofs.Hex
 namespace C01
@@ -181,7 +182,81 @@ example : NWorldInv nvEnv nvNW0 := by
   · exact ⟨by simp [Accts.Nodup], fun _ _ _ _ => Or.inl rfl, fun _ _ => (by show ([] : Bytes).length < two63; decide),
       fun _ _ _ _ h => absurd rfl h⟩
 
--- PARTIAL: the history-level statement for MultiESDTNFTTransfer (its per-item effects are proved in C08 / Proofs/Metadata;
--- the world models run the single-transfer functions) — conservation oracle.
+/-- FULL (history level, MultiESDTNFTTransfer): in a world of any number of shards with messages in flight, along ANY
+    sequence of multi-transfer transactions (any number of items; fungible, SFT and NFT items mixed; the same entry listed
+    several times; attached calls; destination on the same or on another shard), deliveries in any order and refunds of
+    failed deliveries, for EVERY storage key the quantity held on all shards plus the quantity carried by the messages in
+    flight is constant.  What a message carries is read off its arguments by `loopContrib`, item by item exactly as the
+    destination loop reads them (token, nonce, then an encoded entry for nonce > 0 or an amount for nonce 0), so the
+    theorem contains "the sender debits exactly what the destination will credit, through encoder, call parser and
+    decoder".  Hypotheses as for `nft_conservation_history` (`MWorldInv`, preserved by every step). -/
+theorem multi_conservation_history (e : Env) (steps : List NStep) (w : MWorld) (hI : MWorldInv e w)
+    (hok : ∀ s ∈ steps, MultiStepOK s) (k : Bytes) :
+    msupply (multiRun e steps w) k = msupply w k :=
+  (multiRun_supply e steps w hI hok k).1
+
+/-- non-vacuity: alice (shard 0) holds 3 of an SFT (nonce 1) and 10 of a fungible token; one multi transfer moves 2 + 5 of
+    them — and 1 more of the SFT as a third item — to bob (shard 1); the delivery credits them: both supplies are
+    unchanged, in between 3 and 5 are in flight -/
+def nvFT : Bytes := [70, 84]
+def nvFKey : Bytes := esdtKeyPrefix ++ nvFT
+def nvFEntry : Token := { type := 0, value := some 10 }
+def nvMA0 : Accts := Accts.write (Accts.write [] nvAlice nvKey (encToken nvEntry)) nvAlice nvFKey (encToken nvFEntry)
+def nvMW0 : MWorld := { shards := [nvMA0, []], inflight := [] }
+def nvMXfer : Call :=
+  { fn := fnMultiESDTNFTTransfer, caller := nvAlice, rcv := nvAlice,
+    args := [nvBob, [3], nvNFT, [1], [2], nvFT, [], [5], nvNFT, [1], [1]], gas := 1000 }
+example : msupply nvMW0 nvKey = 3 ∧ msupply nvMW0 nvFKey = 10 ∧
+    mflightAt (multiRun nvEnv [.user nvMXfer] nvMW0).inflight nvKey = 3 ∧
+    mflightAt (multiRun nvEnv [.user nvMXfer] nvMW0).inflight nvFKey = 5 ∧
+    msupply (multiRun nvEnv [.user nvMXfer, .deliver 0] nvMW0) nvKey = 3 ∧
+    msupply (multiRun nvEnv [.user nvMXfer, .deliver 0] nvMW0) nvFKey = 10 ∧
+    (multiRun nvEnv [.user nvMXfer, .deliver 0] nvMW0).inflight.length = 0 := by decide +kernel
+
+theorem nvFEntry_dec : decToken (encToken nvFEntry) = some nvFEntry := by decide +kernel
+
+/-- … and that initial world meets the hypothesis `MWorldInv` -/
+example : MWorldInv nvEnv nvMW0 := by
+  have hread : ∀ a k, nvMA0.read a k =
+      if nvAlice = a ∧ nvFKey = k then encToken nvFEntry else if nvAlice = a ∧ nvKey = k then encToken nvEntry else [] := by
+    intro a k; unfold nvMA0; rw [Accts.read_write, Accts.read_write]; rfl
+  refine ⟨?_, fun m hm => (by cases hm)⟩
+  intro A hA
+  simp only [nvMW0, List.mem_cons, List.not_mem_nil, or_false] at hA
+  rcases hA with rfl | rfl
+  · refine ⟨by simp [Accts.Nodup, nvMA0, Accts.write, Accts.set], ?_, ?_, ?_⟩
+    · intro a k _ _
+      rw [hread]
+      split
+      · exact Or.inr ⟨nvFEntry, nvFEntry_dec, ⟨10, rfl, Or.inl (by decide)⟩, fun m hm => by cases hm⟩
+      · split
+        · rename_i h
+          refine Or.inr ⟨nvEntry, nvEntry_dec, ⟨3, rfl, Or.inl (by decide)⟩, ?_⟩
+          intro m hm
+          cases hm
+          exact ⟨nvNFT, by rw [← h.2]; rfl⟩
+        · exact Or.inl rfl
+    · intro a k
+      rw [hread]
+      split
+      · decide +kernel
+      · split
+        · decide +kernel
+        · decide
+    · intro a k t m hne hdec hm
+      rw [hread] at hne hdec
+      split at hne
+      · rename_i h
+        rw [if_pos h, nvFEntry_dec] at hdec
+        cases hdec; cases hm
+      · rename_i h1
+        rw [if_neg h1] at hdec
+        split at hne
+        · rename_i h
+          rw [if_pos h, nvEntry_dec] at hdec
+          cases hdec; cases hm; decide
+        · exact absurd rfl hne
+  · exact ⟨by simp [Accts.Nodup], fun _ _ _ _ => Or.inl rfl, fun _ _ => (by show ([] : Bytes).length < two63; decide),
+      fun _ _ _ _ h => absurd rfl h⟩
 
 end C01
